@@ -1116,7 +1116,7 @@ class XsdGroup(XsdComponent, MutableSequence[ModelParticleType],
             elem.attrib.update(raw_encode_attributes(obj.attributes))
 
         index = cdata_index = 0
-        wrong_content_type = False
+        wrong_content_type = tail_cdata = False
         over_max_depth = context.max_depth is not None and context.max_depth <= context.level
         model = self.get_model_visitor()
 
@@ -1145,6 +1145,7 @@ class XsdGroup(XsdComponent, MutableSequence[ModelParticleType],
                     text = text + value if text is not None else value
                 else:
                     children[-1].tail = value
+                    tail_cdata = tail_cdata or isinstance(value, str) and bool(value.strip())
                 cdata_index += 1
                 continue
 
@@ -1203,7 +1204,7 @@ class XsdGroup(XsdComponent, MutableSequence[ModelParticleType],
             reason = _("wrong content type {!r}").format(type(obj.content))
             context.validation_error(validation, self, reason, elem)
 
-        if not self.mixed and text and text.strip() and self and \
+        if not self.mixed and (text and text.strip() or tail_cdata) and self and \
                 (len(self) > 1 or not isinstance(self[0], XsdAnyElement)):
             reason = _("character data between child elements not allowed")
             context.validation_error(validation, self, reason, elem)
